@@ -576,6 +576,9 @@ class Sim:
                 objs = [pickle.loads(entries[q][1]) for q in range(self.n)]
                 for r in range(self.n):
                     res[r] = pickle.dumps(objs) if r == root else None
+            elif name == "allgather" and getattr(self, "raw_collectives", False):
+                for r in range(self.n):
+                    res[r] = ("list", [entries[q][1] for q in range(self.n)])
             elif name == "allgather":
                 objs = [pickle.loads(entries[q][1]) for q in range(self.n)]
                 for r in range(self.n):
